@@ -14,13 +14,28 @@ const BIN: [&str; 17] = ["eq", "ne", "lt", "le", "gt", "ge", "add", "sub", "mul"
 const UN: [&str; 3] = ["neg", "bitnot", "not"];
 const LITS: [i64; 11] = [0, 1, -1, 2, 31, 32, -2147483648, 2147483647, 65536, -7, 1000];
 
+const STRS: [&str; 14] = ["", "a", "b\u{e9}", "A", "aa", "ab", "b", "10", "9", "-1", " ", "z\u{10400}", "\u{e9}", "abcabcabc"];
+
+/// Integers from all over the 32-bit range: the usual suspects, neighbours of powers of two, the
+/// square-root-of-overflow region, small ones, and anything.
+pub fn any_int(rng: &mut Rng) -> i64 {
+    let v = match rng.below(10) {
+        0..=3 => *rng.pick(&LITS),
+        4 | 5 => {
+            let p = 1i64 << rng.below(32);
+            *rng.pick(&[p, -p, p - 1, p + 1, -p - 1, -p + 1])
+        }
+        6 => (46339 + rng.below(4) as i64) * if rng.chance(1, 2) { 1 } else { -1 },
+        7 => rng.below(41) as i64 - 20,
+        _ => (rng.next() as u32) as i32 as i64,
+    };
+    v.clamp(-2147483648, 2147483647)
+}
 fn lit(rng: &mut Rng) -> J {
     match rng.below(8) {
         0 => json!({"n": 0}),
-        1 => json!({"s": cps("")}),
-        2 => json!({"s": cps("a")}),
-        3 => json!({"s": cps("b\u{e9}")}),
-        _ => json!({"i": *rng.pick(&LITS)}),
+        1..=3 => json!({"s": cps(*rng.pick(&STRS))}),
+        _ => json!({"i": any_int(rng)}),
     }
 }
 fn expr(rng: &mut Rng, depth: u32, cols: &[&str]) -> J {
@@ -45,11 +60,22 @@ fn table_rows(rng: &mut Rng) -> Vec<Vec<Value>> {
     }
     rows
 }
+/// rows of C(K key, S string nullable, N i32 not null): up to five of them
+fn table_c_rows(rng: &mut Rng) -> Vec<Vec<Value>> {
+    let mut rows = Vec::new();
+    for k in 1..=5 {
+        if rng.chance(1, 2) {
+            let s = match rng.below(6) { 0 => Value::Null, 1 => Value::Str("a".into()), 2 => Value::Str("b".into()), 3 => Value::Str("1".into()), 4 => Value::Str("ab".into()), _ => Value::Str("2".into()) };
+            rows.push(vec![Value::Int(k), s, Value::Int(rng.below(4) as i32)]);
+        }
+    }
+    rows
+}
 fn select(rng: &mut Rng, depth: u32) -> (J, Vec<String>) {
     // returns the tree and the column names its result has (to build conditions that mostly resolve)
     if depth == 0 || rng.chance(1, 3) {
-        let t = *rng.pick(&["A", "B", "A", "B", "Z"]);
-        let cols = if t == "A" { vec!["K".to_string(), "V".to_string()] } else { vec!["K".to_string(), "W".to_string()] };
+        let t = *rng.pick(&["A", "B", "C", "A", "B", "C", "Z"]);
+        let cols = match t { "A" => vec!["K".to_string(), "V".to_string()], "C" => vec!["K".to_string(), "S".to_string(), "N".to_string()], _ => vec!["K".to_string(), "W".to_string()] };
         return (json!({"table": cps(t)}), cols.into_iter().map(|c| format!("{}\u{1}{}", t, c)).collect());
     }
     if rng.chance(1, 2) {
@@ -89,13 +115,14 @@ pub fn main(args: &Args) -> i32 {
     p.create_table("E", vec![Column::build("K").primary_key().int16(), Column::build("x").nullable().int32(), Column::build("y").nullable().int32(), Column::build("s").nullable().string(0)]).unwrap();
     p.create_table("A", vec![Column::build("K").primary_key().int16(), Column::build("V").nullable().int16()]).unwrap();
     p.create_table("B", vec![Column::build("K").primary_key().int16(), Column::build("W").nullable().int16()]).unwrap();
+    p.create_table("C", vec![Column::build("K").primary_key().int16(), Column::build("S").nullable().string(0), Column::build("N").int32()]).unwrap();
     let mut lines = 0u64;
     for i in 0..n {
         if i % 3 != 0 {
             // expression on a real row
-            let xv = if rng.chance(1, 6) { Value::Null } else { Value::Int(*rng.pick(&LITS).max(&-2147483647) as i32) };
-            let yv = if rng.chance(1, 6) { Value::Null } else { Value::Int(*rng.pick(&LITS).max(&-2147483647) as i32) };
-            let sv = match rng.below(3) { 0 => Value::Null, 1 => Value::Str("a".into()), _ => Value::Str("zz".into()) };
+            let xv = if rng.chance(1, 6) { Value::Null } else { Value::Int(any_int(&mut rng).max(-2147483647) as i32) };
+            let yv = if rng.chance(1, 6) { Value::Null } else { Value::Int(any_int(&mut rng).max(-2147483647) as i32) };
+            let sv = match rng.below(4) { 0 => Value::Null, 1 => Value::Str("a".into()), 2 => Value::Str("zz".into()), _ => Value::Str((*rng.pick(&STRS[1..])).into()) };
             let _ = p.delete_rows(Delete::from("E"));
             let _ = p.insert_rows(Insert::into("E").row(vec![Value::Int(1), xv, yv, sv]));
             let row = match p.select_rows(Select::table("E")).ok().and_then(|mut r| r.next()) { Some(r) => r, None => continue };
@@ -107,7 +134,8 @@ pub fn main(args: &Args) -> i32 {
         } else {
             let ra = table_rows(&mut rng);
             let rb = table_rows(&mut rng);
-            for (t, rows) in [("A", &ra), ("B", &rb)] {
+            let rc = table_c_rows(&mut rng);
+            for (t, rows) in [("A", &ra), ("B", &rb), ("C", &rc)] {
                 let _ = p.delete_rows(Delete::from(t));
                 if !rows.is_empty() {
                     let _ = p.insert_rows(Insert::into(t).rows(rows.clone()));
@@ -124,7 +152,7 @@ pub fn main(args: &Args) -> i32 {
             }));
             let (got, panic) = match r { Ok(v) => (v, false), Err(_) => (json!({"err": 1}), true) };
             let tj = |rows: &Vec<Vec<Value>>| J::Array(rows.iter().map(|r| J::Array(r.iter().map(j::val).collect())).collect());
-            let _ = writeln!(out, "{}", json!({"k": "q", "a": tj(&ra), "b": tj(&rb), "q": q, "got": got, "panic": panic}));
+            let _ = writeln!(out, "{}", json!({"k": "q", "a": tj(&ra), "b": tj(&rb), "c": tj(&rc), "q": q, "got": got, "panic": panic}));
         }
         lines += 1;
     }
